@@ -180,6 +180,7 @@ pub fn run(ctx: &Ctx) {
         }
         ck!("const.point.identity", EdwardsPoint::identity().compress().0 == ed::ID.compress(), "identity");
     }
+    #[cfg(feature = "ed")]
     ck!("const.len.ed25519", ed25519_dalek::SIGNATURE_LENGTH == 64 && ed25519_dalek::SECRET_KEY_LENGTH == 32 && ed25519_dalek::PUBLIC_KEY_LENGTH == 32 && ed25519_dalek::KEYPAIR_LENGTH == 64, "ed25519 length constants");
 
     // ---- the fixed-base table: 32 x 8 entries, j * 256^i * B
